@@ -79,3 +79,25 @@ Example C01_nonvacuous :
   map ifit (pop st) = [5 # 1; 5 # 1].
 Proof. vm_compute. auto. Qed.
 Print Assumptions C01_nonvacuous.
+
+(* ------------------------------------------------------------------------------------------------
+   THE TIE TO THE SOURCE for the record keeper.  gen/GenLoop.v is regenerated on every run from class TheFittest in
+   base/_ea.py (harness/translate_loop.py: a class is a record of its fields, a method a function on that record;
+   -inf is the extended rational NegInf of theories/Py.v).  The loop model's update_best IS TheFittest._update:
+   for every record state, every non-empty population and fitness vector. *)
+From TF Require Import Py CodeEqLoop.
+From TFG Require Import GenLoop.
+
+Theorem C01_code_update_best : forall (G P : Type) (dG : G) (dP : P) (tf : TheFittest G P) (p : list (indiv G P)),
+  p <> [] -> tf_fitness G P tf <> PosInf -> (0 <= tf_no_update_counter G P tf)%Z ->
+  let tf' := py_TheFittest__update G P dG dP tf (map ig p) (map iph p) (map ifit p) in
+  update_best G P (abs_best G P tf) (Z.to_nat (tf_no_update_counter G P tf)) p
+  = (abs_best G P tf', Z.to_nat (tf_no_update_counter G P tf')).
+Proof. exact code_update_best. Qed.
+Print Assumptions C01_code_update_best.
+
+Theorem C01_code_get : forall (G P : Type) (tf : TheFittest G P) f, tf_fitness G P tf = Fin f ->
+  py_TheFittest_get G P tf = (tf_genotype G P tf, tf_phenotype G P tf, Fin f) /\
+  abs_best G P tf = Some {| ig := tf_genotype G P tf; iph := tf_phenotype G P tf; ifit := f |}.
+Proof. exact code_get. Qed.
+Print Assumptions C01_code_get.
